@@ -122,7 +122,7 @@ fn case_strategy(tier: Tier) -> BoxedStrategy<CbcCase> {
             repeat,
             poll_delay,
         });
-    (
+    let general = (
         small_config(),
         any::<bool>(),
         1u8..=4,
@@ -141,8 +141,56 @@ fn case_strategy(tier: Tier) -> BoxedStrategy<CbcCase> {
                 order,
                 fallback_ms,
             },
-        )
-        .boxed()
+        );
+    // a large permitted_calls_in_half_open and more slow trial callers than that at once
+    let crowd = (
+        prop_oneof![Just(64usize), Just(65usize), Just(70usize), 60usize..=80],
+        any::<bool>(),
+        any::<bool>(),
+        85u8..=110,
+        prop_oneof![Just(40u64), 20u64..=60],
+        prop::collection::vec(any::<u8>(), 0..=8),
+    )
+        .prop_map(|(permitted, time_based, fallback, crowd, lat, order)| CbcCase {
+            cfg: CbConfig {
+                time_based,
+                size: 2,
+                window_ms: 100,
+                thr20: 10,
+                min: Some(2),
+                permitted,
+                wait_ms: 20,
+                slow: None,
+                custom_classifier: false,
+                idle_slow_rate10: None,
+                wait_huge: 0,
+                classifier_first: false,
+            },
+            fallback,
+            clones: 3,
+            callers: vec![
+                CbCaller {
+                    at: 0,
+                    clone: 0,
+                    step: Step::err(0, 3),
+                    cancel_after: None,
+                    repeat: 2,
+                    poll_delay: 0,
+                },
+                CbCaller {
+                    at: 30,
+                    clone: 1,
+                    step: Step::ok(lat),
+                    cancel_after: None,
+                    repeat: crowd,
+                    poll_delay: 0,
+                },
+            ],
+            force_open_at: None,
+            order,
+            fallback_ms: 0,
+        });
+    prop_oneof![40 => general, 1 => crowd].boxed()
 }
 
 const FB_BASE: u64 = 5_000_000;
